@@ -13,8 +13,12 @@ THEOREMS = [
     ('EAO.Properties.C18', 'EAO.C18.lagrangian_affine', 'the bound is affine in a row\'s right-hand side with slope the row\'s multiplier'),
     ('EAO.Properties.C18', 'EAO.C18.price_supergradient', 'for multipliers carrying minus the reported prices on the nodal rows: every point feasible after an injection d at a (node, step) has value <= V + price*d + gap, gap = exact Lagrangian gap of the reported optimum'),
 ]
-COMPONENTS = ['nodalPrices vs io.extract_output["prices"]', 'assemble nodal record', 'exact Lagrangian gap of the reported price table (driver op lagrangian)']
-RULE = ('random LP portfolios (no booleans), plus a stream of portfolios with MIXED discount rates (some assets wacc = 0, some not, list order shuffled) on horizons of 10-40 steps of up to a day; '
+COMPONENTS = ['nodalPrices vs io.extract_output["prices"]', 'assemble nodal record', 'exact Lagrangian gap of the reported price table (driver op lagrangian)',
+              'nodal record: as many rows of type N as entries of map_nodal_restr, all after the last asset row (else duals[N] cannot be read along the record)']
+RULE = ('random LP portfolios (no booleans), plus a stream of portfolios with MIXED discount rates (some assets wacc = 0, some not, list order shuffled) on horizons of 10-40 steps of up to a day, '
+        'plus a stream of portfolios with STRUCTURES (stream struct*): hubs with markets and other assets at 1-3 outer nodes and one or two StructuredAssets wrapping a sub-system with its own price level '
+        '(own internal nodes, local priced contracts, loads, storages, limited transports) that has no node to the outside (nodes = [], an island), one, or several external nodes, '
+        'also nested in each other (a structure or an island inside a structure), some with a window of their own; '
         'per scenario the exact gap of the reported price table, up to 6 re-optimisations with perturbed nodal right-hand side (both signs) on a copy of the assembled problem, '
         'and 2-4 seed-drawn (node, step, d) for which the portfolio is RE-BUILT by the real code - the same asset objects plus a contract injecting the energy d in [t, t+1) at the node, '
         'set up on the same Timegrid object with the same prices - and re-optimised (statement of the property itself); '
@@ -22,7 +26,10 @@ RULE = ('random LP portfolios (no booleans), plus a stream of portfolios with MI
 ASSUMPTIONS = ['tolerance 2e-6 * max(1,|V|) on the exact gap and on the re-optimised values (solver accuracy)']
 EXPLANATION = ('price_supergradient reduces the property to gap = 0 for the ASSEMBLED problem; the run evaluates the gap of the REPORTED table exactly (rationals), cross-checks by re-optimisation '
                'of the perturbed assembled problem, and evaluates the statement itself on the real code: V(d) of the re-built portfolio with an injection asset against V(0) + price*d '
-               '(this also covers what the certificate cannot see: a re-build of the same objects that does not reproduce the original problem)')
+               '(this also covers what the certificate cannot see: a re-build of the same objects that does not reproduce the original problem). '
+               'Rows of type N which the record does not list (none in a consistent problem; reported as a broken tie, component nodal record) are treated as plain equalities '
+               'with the solver\'s dual, the reported prices sit on the rows the portfolio itself appended. '
+               'Not generated: LinkedAsset (needs a boolean variable, outside the LP scope of the property)')
 INJ_NAME = 'c18_injection'
 DISC_GRIDS = [('d', 'd', pd.Timedelta(days=1)), ('d', 'h', pd.Timedelta(days=1)), ('d', 'd', pd.Timedelta(days=1)), ('6h', 'd', pd.Timedelta(hours=6)),
               ('4h', 'h', pd.Timedelta(hours=4)), ('h', 'h', pd.Timedelta(hours=1))]
@@ -53,6 +60,114 @@ def mixed_wacc(s, rnd):
                 args.pop('wacc', None)
     rnd.shuffle(s['assets'])
     s['mixed_wacc'] = sorted(set(ws))
+
+
+STRUCT_FORMS = ['island', 'one', 'several', 'nested', 'island', 'nested_island', 'one', 'island_pair', 'several', 'nested']
+STRUCT_OUTER_KINDS = ['simple', 'contract', 'transport', 'storage', 'multi', 'scaled', 'structured', 'simple']
+
+
+def gen_structure(rnd, g, prices, T, name, outside, n_ext, nest=None, depth=0):
+    """spec of a StructuredAsset wrapping a sub-system with its OWN price level: one or two internal nodes, at each of them a local
+    priced contract (own price array on a level of its own) and possibly a fixed load, a storage or a contract with takes; limited
+    transports between the internal nodes and to each of the `n_ext` external nodes drawn from `outside` (n_ext = 0: nodes = [], a closed
+    sub-system without any connection, an "island"); `nest` = None | 'any' | 'island': one of the wrapped assets is itself such a
+    structure, connected to nodes of this one (or to none).  Returns (spec, all internal node names incl. those of nested structures)"""
+    ext = rnd.sample(outside, min(n_ext, len(outside)))
+    inner_nodes = ['%s_i%d' % (name, k + 1) for k in range(rnd.choice([1, 1, 2]))]
+    all_inner = list(inner_nodes)
+    inner = []
+    level = rnd.choice([-3.0, 2.0, 6.0, 12.0, 25.0, 40.0])
+    for k, nd in enumerate(inner_nodes):
+        key = 'p%d' % len(prices)                      # the local price: a level of its own plus a profile
+        prices[key] = [level + gen.q8(rnd, 0, 4) for _ in range(T)]
+        mode = rnd.choice(['both', 'both', 'buy', 'sell'])
+        lo, hi = -gen.q8(rnd, 0.5, 6), gen.q8(rnd, 0.5, 6)
+        if mode == 'buy':
+            lo = 0.0
+        elif mode == 'sell':
+            hi = 0.0
+        loc = {'type': 'SimpleContract', 'name': '%s_loc%d' % (name, k + 1), 'nodes': [nd], 'args': {'min_cap': lo, 'max_cap': hi, 'price': key}}
+        if rnd.random() < 0.3:
+            loc['args']['extra_costs'] = gen.q8(rnd, 0.125, 1)
+        if rnd.random() < 0.15:
+            loc['args']['wacc'] = rnd.choice([0.05, 0.5])
+        inner.append(loc)
+        r = rnd.random()
+        if r < 0.45:
+            # a fixed load (or a fixed infeed) which the local contract can cover
+            if hi > 0 and (lo == 0.0 or rnd.random() < 0.6):
+                q = -gen.q8(rnd, 0.125, hi)
+            else:
+                q = gen.q8(rnd, 0.125, -lo)
+            inner.append({'type': 'SimpleContract', 'name': '%s_ld%d' % (name, k + 1), 'nodes': [nd], 'args': {'min_cap': q, 'max_cap': q}})
+        elif r < 0.6:
+            inner.append(gen.gen_storage(rnd, g, prices, T, '%s_s%d' % (name, k + 1), [nd], False, False))
+        elif r < 0.75:
+            inner.append(gen.gen_contract(rnd, g, prices, T, '%s_c%d' % (name, k + 1), nd))
+        elif r < 0.85:
+            # a second priced offer at the node: the marginal value there switches between the two price arrays
+            inner.append(gen.gen_simple_contract(rnd, g, prices, T, '%s_o%d' % (name, k + 1), nd))
+    if len(inner_nodes) == 2:
+        tr = gen.gen_transport(rnd, g, prices, T, name + '_ti', inner_nodes[0], inner_nodes[1])
+        tr['args'].pop('costs_time_series', None)
+        inner.append(tr)
+    for k, e in enumerate(ext):
+        a, b = rnd.choice(inner_nodes), e
+        if rnd.random() < 0.3:
+            a, b = b, a
+        tr = gen.gen_transport(rnd, g, prices, T, '%s_tx%d' % (name, k + 1), a, b)
+        tr['args'].pop('costs_time_series', None)
+        if rnd.random() < 0.3:
+            gen.put_window(tr['args'], gen.window(rnd, g, kinds=['inside', 'start_only', 'end_only', 'straddle_end', 'covering']))
+        inner.append(tr)
+    if ext and rnd.random() < 0.3:
+        inner.append(gen.gen_simple_contract(rnd, g, prices, T, name + '_d', rnd.choice(ext)))
+    if nest is not None and depth < 2:
+        avail = inner_nodes + ext
+        ne = 0 if nest == 'island' else rnd.choice([1, 1, 2, 0])
+        sub, sub_nodes = gen_structure(rnd, g, prices, T, name + 'n', avail, ne, nest=('any' if rnd.random() < 0.25 else None), depth=depth + 1)
+        inner.insert(rnd.randint(0, len(inner)), sub)
+        all_inner += sub_nodes
+    args = {}
+    if rnd.random() < 0.25:
+        gen.put_window(args, gen.window(rnd, g, kinds=['inside', 'start_only', 'end_only', 'straddle_start', 'straddle_end', 'covering', 'equal']))
+    spec = {'type': 'StructuredAsset', 'name': name, 'nodes': ext, 'inner': inner, 'args': args, 'inner_nodes': all_inner}
+    return spec, all_inner
+
+
+def struct_scenario(r, form, tier):
+    """a portfolio with hubs (markets and other assets at 1-3 outer nodes) and one or two structures of the given form"""
+    s = gen.gen_portfolio(r, tmin=2, tmax=9 if tier == 'quick' else 14, allow_mip=False, tz_prob=0.1, kinds=STRUCT_OUTER_KINDS, nodes_max=3, max_assets=3,
+                          market_prob=1.0)
+    g, prices = s['grid'], s['prices']
+    from .. import scen
+    T = scen.make_grid(g).T
+    outer = [n for n in s['nodes'] if not any(n in a.get('inner_nodes', []) for a in s['assets'])]
+    if form == 'several' and len(outer) < 2:
+        # a second hub with its own market
+        outer.append('N%d' % (len(outer) + 1))
+        s['nodes'].append(outer[-1])
+        s['assets'].append({'type': 'SimpleContract', 'name': 'mktx', 'nodes': [outer[-1]],
+                            'args': {'min_cap': -40.0, 'max_cap': 40.0, 'price': gen.price_key(r, prices, T)}})
+    plan = {'island': [(0, None)], 'one': [(1, None)], 'several': [(r.choice([2, 2, 3]), None)], 'nested': [(r.choice([1, 1, 2, 0]), 'any')],
+            'nested_island': [(r.choice([1, 1, 2]), 'island')], 'island_pair': [(0, None), (r.choice([0, 1]), None)]}[form]
+    for k, (n_ext, nest) in enumerate(plan):
+        spec, nodes_in = gen_structure(r, g, prices, T, 'isl%d' % (k + 1), outer, n_ext, nest=nest)
+        s['assets'].insert(r.randint(0, len(s['assets'])), spec)
+        s['nodes'] += [x for x in nodes_in if x not in s['nodes']]
+    s['struct_form'] = form
+    return s
+
+
+def struct_features(specs, depth=0):
+    """which kinds of structures a scenario holds (for the evidence): by number of external nodes, nesting"""
+    out = []
+    for a in specs:
+        if a['type'] in ('StructuredAsset', 'LinkedAsset'):
+            ne = len(a['nodes'])
+            out.append('struct:%s%s' % ('nested-' if depth else '', 'island' if ne == 0 else ('ext%d' % ne if ne < 2 else 'ext2+')))
+            out += struct_features(a.get('inner', []), depth + 1)
+    return out
 
 
 def scenarios(seed, tier):
@@ -94,17 +209,30 @@ def scenarios(seed, tier):
         mixed_wacc(s, r)
         s['inject'] = draw_injections(r, r.randint(3, 4))
         yield 'wacc%d' % i, s
+    # structures: sub-systems with their own price level wrapped in one asset - without any node to the outside (islands), with one,
+    # with several external nodes, nested in each other - next to hubs with markets and other assets
+    rs = random.Random(seed * 7919 + 181818)
+    for i in range(n // 3):
+        r = random.Random(rs.getrandbits(48))
+        s = struct_scenario(r, STRUCT_FORMS[i % len(STRUCT_FORMS)], tier)
+        if i % 4 == 3:
+            s['solver'] = r.choice(['SCIPY', 'CLARABEL'])
+        s['inject'] = draw_injections(r, r.randint(2, 3))
+        yield 'struct%d' % i, s
 
 
 def multipliers(op, res, prices_by_pair):
-    """sign-correct y in row order: solver duals on U/L/S rows, minus the REPORTED price on nodal rows"""
+    """sign-correct y in row order: solver duals on U/L/S rows, minus the REPORTED price on nodal rows.
+    The nodal rows are the ones the portfolio appends after all asset rows, one per entry of map_nodal_restr; a row of type 'N' before
+    them (none in a consistent problem, see the 'nodal record' tie) is an equality like any other and gets the solver's dual"""
     cnt = {'U': 0, 'L': 0, 'S': 0, 'N': 0}
+    extra = max(0, op.cType.count('N') - len(op.map_nodal_restr))
     y = []
     for k in op.cType:
         i = cnt[k]
         cnt[k] += 1
-        if k == 'N':
-            t, n = op.map_nodal_restr[i]
+        if k == 'N' and i >= extra:
+            t, n = op.map_nodal_restr[i - extra]
             y.append(-float(prices_by_pair[(int(t), str(n))]))
             continue
         d = res.duals.get(k)
@@ -170,7 +298,18 @@ def run_case(scn, drv):
     if pf.is_mip(op):
         feats.append('skip:mip')
         return r
+    feats += struct_features(scn['assets'])
     r['disagreements'] += pf.corr_assemble(rec, drv, aspects=('nodalrows', 'nodal'))
+    # the record which the price read-out walks along has one entry per row of type 'N', in row order, and these rows are the last ones
+    # (C07's statement; without it res.duals['N'][i] is not the multiplier of the row of map_nodal_restr[i] and the read-out is meaningless)
+    nN, nrec = op.cType.count('N'), len(op.map_nodal_restr)
+    ntail = len(op.cType) - len(op.cType.rstrip('N'))
+    if nN != nrec or ntail != nN:
+        r['disagreements'].append({'component': 'nodal record', 'detail': 'the assembled problem has %d rows of type N (%d of them after the last asset row) but map_nodal_restr lists %d (step, node) pairs: '
+                                   'duals[\'N\'] cannot be read along the record' % (nN, ntail, nrec)})
+        feats.append('nodal-record-mismatch')
+        if nN < nrec:
+            return r
     solver = scn.get('solver')
     try:
         pf.solve_rec(rec, solver=solver)
@@ -226,6 +365,7 @@ def run_case(scn, drv):
     # perturbation oracle
     rnd = random.Random(len(op.c) * 31 + len(op.cType))
     Nrows = [i for i, k in enumerate(op.cType) if k == 'N']
+    Nrows = Nrows[len(Nrows) - len(op.map_nodal_restr):]       # the portfolio's own nodal rows
     feasible_pert = 0
     for _ in range(min(3, len(Nrows))):
         k = rnd.randrange(len(Nrows))
